@@ -430,7 +430,21 @@ async fn upgraded(env: Rc<Env>, req: Request, mut framed: actix_codec::Framed<Sc
     Ok(())
 }
 
-async fn handle(env: Rc<Env>, programs: Rc<Vec<HandlerProgram>>, mut req: Request) -> Result<Response<BoxBody>, actix_http::Error> {
+/// A service error that converts into an arbitrary prepared response (so that the dispatcher's
+/// error-response path, with its own body state, is exercised with any body kind).
+pub struct SvcFail(Response<BoxBody>);
+impl From<SvcFail> for Response<BoxBody> {
+    fn from(e: SvcFail) -> Self {
+        e.0
+    }
+}
+impl std::fmt::Debug for SvcFail {
+    fn fmt(&self, f: &mut std::fmt::Formatter<'_>) -> std::fmt::Result {
+        f.write_str("SvcFail")
+    }
+}
+
+async fn handle(env: Rc<Env>, programs: Rc<Vec<HandlerProgram>>, mut req: Request) -> Result<Response<BoxBody>, SvcFail> {
     let path = req.path().to_string();
     let k: usize = path.trim_start_matches('/').parse().unwrap_or(usize::MAX);
     let n = {
@@ -583,6 +597,10 @@ async fn handle(env: Rc<Env>, programs: Rc<Vec<HandlerProgram>>, mut req: Reques
     let body = build_body(&env, k, &prog.body, keep, read_first_in_body);
     let resp = rb.body(body).map_into_boxed_body();
     env.push(Event::Responded { handler: k, out_len: env.io.borrow().out.len(), failed: false, consumed: env.io.borrow().rpos });
+    if prog.as_service_error {
+        // the same response, handed to the dispatcher as the conversion of a service error
+        return Err(SvcFail(resp));
+    }
     Ok(resp)
 }
 
